@@ -66,6 +66,7 @@ func structFieldKinds(c *Ctx, pkg, typ string) map[string]string {
 
 func runC16(c *Ctx) {
 	r := c.R
+	defer ruleLoopNonBlocking(c, "R16.5")
 	r.NotDecided = append(r.NotDecided,
 		"spacing of heartbeats by the period and the 30 s window in real time",
 		"counts of requests over arrival histories (R16.3 decides the per-arrival decision, not the history)")
@@ -120,8 +121,8 @@ func runC16(c *Ctx) {
 	}{{hbI, []string{"0"}}, {srI, []string{"0", "66"}}} {
 		var got []string
 		for _, cl := range c.AllFns {
-			if cl.Parent() != f.fn {
-				continue
+			if cl.Parent() != f.fn && cl != f.fn {
+				continue // the finder is a closure of the initialiser, or a loop written out in it
 			}
 			for _, iff := range ifsIn(cl) {
 				s := ex(iff.Cond)
